@@ -700,6 +700,7 @@ type gStream struct {
 	curSize, curOff, curIdx  int
 	half, cancelled          bool
 	hRecvPend, hSendPend     bool
+	hSendFailed              bool // a SendMsg of the handler returned an error: by the gRPC contract it must not send again
 	hReturned                bool
 	hEntered                 bool
 	respIdx                  int
@@ -915,7 +916,9 @@ func runSScenario(t *testing.T, ops *opsWriter, rng *rand.Rand, steps int, hosti
 				g.hRecvPend = true
 				r.call(g.sid, hcmd{op: "recv"})
 			case k < 82: // handler send / reply
-				g := pick(func(s *gStream) bool { return s.accepted && s.hEntered && !s.hSendPend && !s.hReturned })
+				g := pick(func(s *gStream) bool {
+					return s.accepted && s.hEntered && !s.hSendPend && !s.hReturned && (!s.hSendFailed || rng.Intn(4) == 0)
+				})
 				if g == nil {
 					continue
 				}
@@ -1003,6 +1006,9 @@ func (r *sRun) refreshPending(streams []*gStream) {
 					g.hRecvPend = false
 				case "send":
 					g.hSendPend = false
+					if d[col+1:] != "ok" {
+						g.hSendFailed = true
+					}
 				case "decode":
 					if strings.HasPrefix(d[col+1:], "msg") {
 						g.hEntered = true
